@@ -297,6 +297,14 @@ func (d *Decoder) decodeTo(v reflect.Value) error {
 
 	isNull := d.r.IsNull()
 	v = indirect(v, isNull)
+	if !v.IsValid() {
+		return errors.New("ion: cannot set embedded pointer to unexported struct")
+	}
+	if !v.CanSet() && (isNull || v.Kind() != reflect.Struct || isScalarStruct(v.Type())) {
+		// The value of an unexported embedded field cannot be replaced (only the
+		// exported fields of an embedded struct can be filled).
+		return fmt.Errorf("ion: cannot set unexported embedded field of type %v", v.Type().String())
+	}
 	if isNull {
 		v.Set(reflect.Zero(v.Type()))
 		if v.Type().Kind() == reflect.Struct {
@@ -869,6 +877,10 @@ func indirect(v reflect.Value, wantPtr bool) reflect.Value {
 		}
 
 		if v.IsNil() {
+			if !v.CanSet() {
+				// A nil unexported embedded pointer cannot be allocated.
+				return reflect.Value{}
+			}
 			v.Set(reflect.New(v.Type().Elem()))
 		}
 
@@ -876,6 +888,11 @@ func indirect(v reflect.Value, wantPtr bool) reflect.Value {
 	}
 
 	return v
+}
+
+// isScalarStruct returns true for the struct types that hold an Ion scalar.
+func isScalarStruct(t reflect.Type) bool {
+	return t == timestampType || t == nativeTimeType || t == decimalType || t == bigIntType || t == symbolType
 }
 
 func (d *Decoder) decodeToStructWithAnnotation(v reflect.Value, valueAcceptableKinds ...reflect.Kind) error {
